@@ -41,7 +41,7 @@ func runC11(c *rules.Ctx) {
 		"risk-adjusted value = amount − amount × minimum risk factor (the discount itself is never what is staked)", "")
 	c.Returns(K+"UnriskAdjustOsmoValue", 0, "sdkmath.LegacyDec.Quo(amount, sdkmath.LegacyDec.Sub(sdkmath.LegacyOneDec(), {RISK}))", "the inverse divides by 1 − minimum risk factor", "")
 	lockupGenesisAccumulationRules(c)
-	c.Returns("x/superfluid/keeper.Hooks.AfterEpochEnd", 0, "superfluidkeeper.Keeper.AfterEpochEnd(h.k,ctx,epochIdentifier,epochNumber)", "the epoch hook wrapper returns the keeper's verdict unchanged", "")
+	c.CheckedCall("x/superfluid/keeper.Hooks.AfterEpochEnd", "superfluidkeeper.Keeper.AfterEpochEnd", []string{"h.k", "ctx", "epochIdentifier", "epochNumber"}, "the epoch hook wrapper fails when the keeper's epoch step fails", "")
 	// ---- delegate flow
 	const SD = K + "SuperfluidDelegate"
 	c.Let("LOCK", "superfluidtypes.LockupKeeper.GetLockByID(k.lk,ctx,lockID)#0")
